@@ -10,11 +10,18 @@ static size_t vf_cb_bytes, vf_cb_calls;
 static long vf_cb_fail_at = -1;     /* -1: never fail */
 static int vf_cb_failed;
 static void *vf_cb_key_seen;
+/* ghost index: the harness may pick one stream position to watch ("for all positions" by nondeterminism) */
+static size_t vf_cb_watch = (size_t)-1;
+static unsigned char vf_cb_watched;
+static int vf_cb_watch_hit;
 static int vf_cb(const void *buffer, size_t size, void *key) {
 	size_t i;
 	vf_cb_key_seen = key;
 	if(vf_cb_fail_at >= 0 && (long)vf_cb_calls == vf_cb_fail_at) { vf_cb_calls++; vf_cb_failed = 1; return -1; }
 	vf_cb_calls++;
+	if(vf_cb_watch >= vf_cb_bytes && vf_cb_watch - vf_cb_bytes < size) {
+		vf_cb_watched = ((const unsigned char *)buffer)[vf_cb_watch - vf_cb_bytes]; vf_cb_watch_hit = 1;
+	}
 	for(i = 0; i < VF_CB_CAP; i++)
 		if(i < size && vf_cb_bytes + i < VF_CB_CAP) vf_cb_log[vf_cb_bytes + i] = ((const unsigned char *)buffer)[i];
 	vf_cb_bytes += size;
